@@ -159,7 +159,8 @@ type eng struct {
 
 	ref *refDB // independent reference (spec-level oracle)
 
-	watches []*watchRec
+	watches   []*watchRec
+	pendingIW []*watchRec // InsertWatch channels handed out in the open transaction
 
 	gcMu        sync.Mutex
 	gcGoid      uint64
@@ -622,7 +623,7 @@ func (e *eng) Op(f []string, line string, out *hx.Out) {
 		e.wtxn = e.db.WriteTxn(metas...)
 		e.ref.begin(e.locked)
 		emit("M:*", "ok")
-	case "insert", "modify", "cas":
+	case "insert", "insertw", "modify", "cas":
 		i := 1
 		tab := atoi(f[i])
 		i++
@@ -647,6 +648,16 @@ func (e *eng) Op(f []string, line string, out *hx.Out) {
 		switch f[0] {
 		case "insert":
 			old, hadOld, err = e.tabs[tab].Insert(w, o)
+		case "insertw":
+			var wch <-chan struct{}
+			old, hadOld, wch, err = e.tabs[tab].InsertWatch(w, o)
+			if err == nil && e.wtxn != nil {
+				_, rev, _ := e.tabs[tab].Get(e.wtxn, idIndex.Query(o.ID))
+				if isClosed(wch) {
+					bad = " !BAD:C06:insertwatch-closed-when-handed-out"
+				}
+				e.pendingIW = append(e.pendingIW, &watchRec{ch: wch, tab: tab, pk: o.ID, result: objS(o, rev)})
+			}
 		case "modify":
 			old, hadOld, err = e.tabs[tab].Modify(w, o, func(old, new *Obj) *Obj {
 				return &Obj{ID: new.ID, Val: old.Val + new.Val, U: new.U, N: new.N, LU: new.LU, LN: new.LN}
@@ -655,7 +666,11 @@ func (e *eng) Op(f []string, line string, out *hx.Out) {
 			old, hadOld, err = e.tabs[tab].CompareAndSwap(w, guard, o)
 		}
 		res := e.writeS(old, hadOld, oldRev, err)
-		if want := e.ref.modify(tab, f[0], guard, o, e.wtxn != nil); want != res {
+		refKind := f[0]
+		if refKind == "insertw" {
+			refKind = "insert"
+		}
+		if want := e.ref.modify(tab, refKind, guard, o, e.wtxn != nil); want != res {
 			bad = fmt.Sprintf(" !BAD:C03:write-result(want:%s)", strings.ReplaceAll(want, " ", "_"))
 		}
 		emit("P:C03,C09,C04", "%s", res)
@@ -718,6 +733,9 @@ func (e *eng) Op(f []string, line string, out *hx.Out) {
 		}
 		e.afterCommit()
 		e.settleGC()
+		// InsertWatch channels of the committed transaction guard the object version they were handed out for
+		e.watches = append(e.watches, e.pendingIW...)
+		e.pendingIW = nil
 		if b := e.watchOracle("commit"); b != "" {
 			bad = b
 		}
@@ -734,6 +752,7 @@ func (e *eng) Op(f []string, line string, out *hx.Out) {
 		if d := e.dump(e.db.ReadTxn()); d != before {
 			bad = " !BAD:C02:abort-changed-committed-state"
 		}
+		e.pendingIW = nil
 		if b := e.watchOracle("abort"); b != "" {
 			bad = b
 		}
